@@ -47,7 +47,7 @@ use ast_grep_core::{Language, Matcher, Node};
 use ast_grep_language::SupportLang;
 use rayon::prelude::*;
 use serde_json::{json, Value};
-use std::collections::{BTreeMap, HashSet};
+use std::collections::{BTreeMap, HashMap, HashSet};
 use std::panic::AssertUnwindSafe as Aus;
 use std::sync::atomic::{AtomicU64, Ordering::Relaxed};
 use vcore::dump::*;
@@ -682,6 +682,81 @@ fn part2_configs(spec: &LangSpec, a: &Atoms) -> Vec<Value> {
   out
 }
 
+/// second characterisation: the sibling iterator (prev_all / next_all) shows a true sibling
+/// under another kind than the parent's child list does (an aliased kind is lost), and under
+/// that kind it satisfies the expansion rule
+fn iterator_kind_explains(exp: &ExpM, m: &Node<D>, sibs: &[Node<D>], boundary: usize, is_start: bool) -> bool {
+  let seen: Vec<Node<D>> = if is_start { m.prev_all().collect() } else { m.next_all().collect() };
+  for y in seen {
+    let at = if is_start { y.range().start } else { y.range().end };
+    if at != boundary {
+      continue;
+    }
+    if sibs.iter().any(|s| s.node_id() == y.node_id() && s.kind_id() != y.kind_id()) && exp.rule.match_node(y.clone()).is_some() {
+      return true;
+    }
+  }
+  false
+}
+
+enum Verdict {
+  Ok,
+  Widened,
+  BoundsOnly,
+  Bad(String),
+}
+
+/// one edit of a rule+fix front end against the statement. `strict`: the front end is the one
+/// that is stated to honour expansions (make_edit, what the CLI does); otherwise an edit that
+/// ignores the expansions (the match itself) is accepted as well (C08 compares front ends)
+fn judge(cfg: &Cfg2, m: &Node<D>, e: &Ed, strict: bool) -> Verdict {
+  let (ms, me) = (m.range().start, m.range().end);
+  let (p, q) = (e.0, e.0 + e.1);
+  if !cfg.expands {
+    return if p != ms {
+      Verdict::Bad("no-expansion:edit-does-not-start-at-match".into())
+    } else if q > me {
+      Verdict::Bad("no-expansion:edit-exceeds-match".into())
+    } else {
+      Verdict::Ok
+    };
+  }
+  if !strict && p == ms && q <= me {
+    return Verdict::Ok;
+  }
+  if p > ms || q < me {
+    return Verdict::Bad("expansion:range-does-not-contain-match".into());
+  }
+  if cfg.model.start.is_none() && p != ms {
+    return Verdict::Bad("expansion:start-moved-without-expandStart".into());
+  }
+  if cfg.model.end.is_none() && q != me {
+    return Verdict::Bad("expansion:end-moved-without-expandEnd".into());
+  }
+  let Some((rs, re)) = ref_range(&cfg.model, m) else {
+    return Verdict::BoundsOnly;
+  };
+  if p != rs || q != re {
+    let (which, exp, boundary) = if p != rs { ("start", cfg.model.start.as_ref(), p) } else { ("end", cfg.model.end.as_ref(), q) };
+    let is_start = which == "start";
+    let mut tag = "";
+    if let (Some(x), Some((before, after))) = (exp, sibling_lists(m)) {
+      let sibs = if is_start { &before } else { &after };
+      if same_range_descendant_explains(x, sibs, boundary, is_start) {
+        tag = ":boundary-of-a-same-range-descendant-of-a-sibling";
+      } else if iterator_kind_explains(x, m, sibs, boundary, is_start) {
+        tag = ":sibling-seen-under-another-kind-by-the-sibling-iterator";
+      }
+    }
+    return Verdict::Bad(format!("expansion:{which}-differs-from-sibling-model{tag}"));
+  }
+  if (p, q) != (ms, me) {
+    Verdict::Widened
+  } else {
+    Verdict::Ok
+  }
+}
+
 fn part2_source(rep: &Reporter, st: &Stats, samples: &Samp, spec: &LangSpec, src: &str, cfgs: &[Cfg2]) {
   let grep = spec.lang.ast_grep(src);
   let root = grep.root();
@@ -702,14 +777,18 @@ fn part2_source(rep: &Reporter, st: &Stats, samples: &Samp, spec: &LangSpec, src
       continue;
     }
     st.p2_with_matches.fetch_add(1, Relaxed);
+    let report = |front: &str, what: &str, e: &Ed, m: &Node<D>| {
+      let mut c = case();
+      c["edit"] = ed_json(e);
+      c["match"] = json!([m.range().start, m.range().end]);
+      c["reference_range"] = json!(guarded(Aus(|| ref_range(&cfg.model, m))).ok().flatten());
+      viol(rep, &format!("{front}:{what}"), c);
+    };
     // --- the CLI's way: make_edit for every match
     let mut edits = vec![];
-    let mut refs = vec![];
     let mut failed = false;
     for m in &matches {
       let r = m.range();
-      let reference = guarded(Aus(|| ref_range(&cfg.model, m.get_node()))).ok().flatten();
-      refs.push((r.start, r.end, reference));
       match guarded(Aus(|| to_ed(m.make_edit(&cfg.cfg.matcher, &cfg.fixer)))) {
         Err(msg) => {
           let mut c = case();
@@ -726,53 +805,20 @@ fn part2_source(rep: &Reporter, st: &Stats, samples: &Samp, spec: &LangSpec, src
     }
     st.p2_edits.fetch_add(edits.len() as u64, Relaxed);
     if fc.wf_all("p2:make_edit", &edits, &case) {
-      for ((e, (ms, me, reference)), m) in edits.iter().zip(&refs).zip(&matches) {
-        let (p, q) = (e.0, e.0 + e.1);
-        let bad = |sig: &str| {
-          let mut c = case();
-          c["edit"] = ed_json(e);
-          c["match"] = json!([ms, me]);
-          c["reference_range"] = json!(reference);
-          viol(rep, sig, c);
-        };
-        if !cfg.expands {
-          if p != *ms {
-            bad("p2:make_edit:no-expansion:edit-does-not-start-at-match");
-          } else if q > *me {
-            bad("p2:make_edit:no-expansion:edit-exceeds-match");
+      for (e, m) in edits.iter().zip(&matches) {
+        match guarded(Aus(|| judge(cfg, m.get_node(), e, true))) {
+          Err(_) | Ok(Verdict::Ok) => {}
+          Ok(Verdict::BoundsOnly) => {
+            st.p2_exact_model_not_applicable.fetch_add(1, Relaxed);
           }
-          continue;
-        }
-        if p > *ms || q < *me {
-          bad("p2:make_edit:expansion:range-does-not-contain-match");
-          continue;
-        }
-        if cfg.model.start.is_none() && p != *ms {
-          bad("p2:make_edit:expansion:start-moved-without-expandStart");
-          continue;
-        }
-        if cfg.model.end.is_none() && q != *me {
-          bad("p2:make_edit:expansion:end-moved-without-expandEnd");
-          continue;
-        }
-        let Some((rs, re)) = reference else {
-          st.p2_exact_model_not_applicable.fetch_add(1, Relaxed);
-          continue;
-        };
-        if p != *rs || q != *re {
-          let (which, exp, boundary) = if p != *rs { ("start", cfg.model.start.as_ref(), p) } else { ("end", cfg.model.end.as_ref(), q) };
-          let lists = sibling_lists(m.get_node());
-          let explained = match (exp, &lists) {
-            (Some(x), Some((before, after))) => same_range_descendant_explains(x, if which == "start" { before } else { after }, boundary, which == "start"),
-            _ => false,
-          };
-          let tag = if explained { ":boundary-of-a-same-range-descendant-of-a-sibling" } else { "" };
-          bad(&format!("p2:make_edit:expansion:{which}-differs-from-sibling-model{tag}"));
-        } else if (p, q) != (*ms, *me) {
-          st.p2_edits_widened.fetch_add(1, Relaxed);
-          if src.len() >= 5 && src.len() <= 16 && cfg.model.start.is_some() && cfg.model.end.is_some() && p < *ms && q > *me {
-            samples.p2.offer(|| json!({"part": 2, "lang": spec.name, "src": src, "fix": cfg.json["fix"], "rule": cfg.json["rule"], "match": [ms, me], "edit": ed_json(e)}));
+          Ok(Verdict::Widened) => {
+            st.p2_edits_widened.fetch_add(1, Relaxed);
+            let r = m.range();
+            if src.len() >= 5 && src.len() <= 16 && cfg.model.start.is_some() && cfg.model.end.is_some() && e.0 < r.start && e.0 + e.1 > r.end {
+              samples.p2.offer(|| json!({"part": 2, "lang": spec.name, "src": src, "fix": cfg.json["fix"], "rule": cfg.json["rule"], "match": [r.start, r.end], "edit": ed_json(e)}));
+            }
           }
+          Ok(Verdict::Bad(what)) => report("p2:make_edit", &what, e, m.get_node()),
         }
       }
       fc.check_file("p2:make_edit", &edits, false, &case);
@@ -786,13 +832,9 @@ fn part2_source(rep: &Reporter, st: &Stats, samples: &Samp, spec: &LangSpec, src
         Err(_) => continue,
       }
     };
-    let allowed = |e: &Ed, n: &Node<D>| -> bool {
-      let r = n.range();
-      match ref_range(&cfg.model, n) {
-        Some((rs, re)) => (e.0 == r.start || e.0 == rs) && e.0 + e.1 <= re.max(r.end) && (cfg.expands || e.0 + e.1 <= r.end),
-        None => e.0 <= r.start, // exact model not applicable: only "does not start after the match"
-      }
-    };
+    // with an expanding fixer the overlap-free traversal does not by itself keep the EDITS
+    // disjoint: that combination gets its own signature
+    let ra = if cfg.expands { "p2:replace_all:expanding-fixer" } else { "p2:replace_all" };
     match guarded(Aus(|| root.replace_all(&cfg.cfg.matcher, &cfg.fixer).into_iter().map(to_ed).collect::<Vec<_>>())) {
       Err(msg) => {
         let mut c = case();
@@ -809,14 +851,11 @@ fn part2_source(rep: &Reporter, st: &Stats, samples: &Samp, spec: &LangSpec, src
           viol(rep, "p2:replace_all:not-one-edit-per-outermost-match", c);
         } else if wf {
           for (e, n) in es.iter().zip(&outer) {
-            if !allowed(e, n) {
-              let mut c = case();
-              c["edit"] = ed_json(e);
-              c["match"] = json!([n.range().start, n.range().end]);
-              viol(rep, "p2:replace_all:edit-neither-match-nor-expansion", c);
+            if let Ok(Verdict::Bad(what)) = guarded(Aus(|| judge(cfg, n, e, false))) {
+              report("p2:replace_all", &what, e, n);
             }
           }
-          fc.check_file("p2:replace_all", &es, true, &case);
+          fc.check_file(ra, &es, true, &case);
         }
       }
     }
@@ -831,10 +870,22 @@ fn part2_source(rep: &Reporter, st: &Stats, samples: &Samp, spec: &LangSpec, src
         st.p2_front_edits.fetch_add(1, Relaxed);
         let one = [e];
         if fc.wf_all("p2:replace", &one, &case) {
-          if !matches.iter().any(|m| allowed(&one[0], m.get_node())) {
-            let mut c = case();
-            c["edit"] = ed_json(&one[0]);
-            viol(rep, "p2:replace:edit-neither-match-nor-expansion", c);
+          // the edit belongs to one of the matches: judged against the match it starts in or
+          // was expanded from (any match for which it is acceptable)
+          let mut verdicts = vec![];
+          for m in &matches {
+            match guarded(Aus(|| judge(cfg, m.get_node(), &one[0], false))) {
+              Ok(Verdict::Bad(w)) => verdicts.push(Some((w, m.get_node().clone()))),
+              _ => {
+                verdicts.clear();
+                verdicts.push(None);
+                break;
+              }
+            }
+          }
+          if let Some(Some((what, n))) = verdicts.first() {
+            // acceptable for no match: report against the first match (replace = first match)
+            report("p2:replace", what, &one[0], n);
           }
           fc.check_file("p2:replace", &one, true, &case);
         }
@@ -846,7 +897,18 @@ fn part2_source(rep: &Reporter, st: &Stats, samples: &Samp, spec: &LangSpec, src
 // ------------------------------------------------------------------------------------------
 // part 3: rewrite transformation
 
+/// identical rule/rewriter texts get one number, so that per-source work on them is shared
+fn intern(text: String) -> usize {
+  static TABLE: std::sync::Mutex<Option<std::collections::HashMap<String, usize>>> = std::sync::Mutex::new(None);
+  let mut g = TABLE.lock().unwrap();
+  let t = g.get_or_insert_with(Default::default);
+  let n = t.len();
+  *t.entry(text).or_insert(n)
+}
+
 struct Cfg3 {
+  outer_id: usize,
+  rw_ids: Vec<usize>,
   json: Value,
   cfg: RuleConfig<SupportLang>,
   fixer: Fixer<SupportLang>,
@@ -867,6 +929,7 @@ fn load_cfg3(json: &Value, lang: SupportLang) -> Result<Cfg3, String> {
   let rw = &json["transform"]["B"]["rewrite"];
   let multi = rw["source"].as_str().unwrap_or("").starts_with("$$$");
   let mut rws = vec![];
+  let mut rw_ids = vec![];
   for id in rw["rewriters"].as_array().ok_or("rewriters")? {
     let def = json["rewriters"].as_array().ok_or("rewriters list")?.iter().find(|r| r["id"] == *id).ok_or("rewriter id")?;
     let core = load_core(&json!({"rule": def["rule"], "fix": def["fix"]}), lang)?;
@@ -874,8 +937,10 @@ fn load_cfg3(json: &Value, lang: SupportLang) -> Result<Cfg3, String> {
       return Err("rewriter without fix".into());
     }
     rws.push(core);
+    rw_ids.push(intern(format!("{}|{}|{}", json["language"], def["rule"], def["fix"])));
   }
-  Ok(Cfg3 { json: json.clone(), cfg, fixer, plain, multi, rws, join_by: rw["joinBy"].as_str().map(|s| s.to_string()) })
+  let outer_id = intern(format!("{}|{}", json["language"], json["rule"]));
+  Ok(Cfg3 { outer_id, rw_ids, json: json.clone(), cfg, fixer, plain, multi, rws, join_by: rw["joinBy"].as_str().map(|s| s.to_string()) })
 }
 
 fn rewriter_defs(a: &Atoms) -> Vec<(Value, Value)> {
@@ -974,16 +1039,27 @@ fn multi_patterns(spec: &LangSpec, pats: &[Pat], srcs: &[String], m: usize) -> V
   scored.into_iter().take(m).map(|s| s.1).collect()
 }
 
-/// recomputed rewriter edits over the captured nodes (absolute positions)
-fn rewriter_edits(nodes: &[Node<D>], rws: &[Core]) -> Vec<Ed> {
+/// recomputed rewriter edits over the captured nodes (absolute positions). What one rewriter
+/// does at one node of this source does not depend on the rest of the configuration: it is
+/// computed once per (rewriter, node) and kept in `cache`
+fn rewriter_edits(nodes: &[Node<D>], cfg: &Cfg3, cache: &mut HashMap<(usize, usize), Option<Ed>>) -> Vec<Ed> {
   let mut out = vec![];
   for n in nodes {
     let mut all = vec![];
     all_nodes(n, &mut all);
     for d in all {
-      for rw in rws {
-        if let Some(nm) = rw.match_node(d.clone()) {
-          out.push(to_ed(nm.make_edit(rw, rw.fixer.as_ref().expect("checked at load"))));
+      for (rw, id) in cfg.rws.iter().zip(&cfg.rw_ids) {
+        let key = (*id, d.node_id());
+        let e = match cache.get(&key) {
+          Some(e) => e.clone(),
+          None => {
+            let e = rw.match_node(d.clone()).map(|nm| to_ed(nm.make_edit(rw, rw.fixer.as_ref().expect("checked at load"))));
+            cache.insert(key, e.clone());
+            e
+          }
+        };
+        if let Some(e) = e {
+          out.push(e);
           break;
         }
       }
@@ -1019,15 +1095,21 @@ fn part3_source(rep: &Reporter, st: &Stats, samples: &Samp, spec: &LangSpec, src
   let grep = spec.lang.ast_grep(src);
   let root = grep.root();
   let fc = FileCtx { rep, st, lang: spec.lang, src, applied: HashSet::new() };
+  let mut plain_cache = HashMap::new();
+  let mut rw_cache: HashMap<(usize, usize), Option<Ed>> = HashMap::new();
   for cfg in cfgs {
     st.p3_evals.fetch_add(1, Relaxed);
     let case = || json!({"part": 3, "lang": spec.name, "src": src, "config": cfg.json});
     // the transform does not take part in matching: the matches are those of the same rule
     // without transform; the rule with transform is then run on each matched node separately so
     // that a panic is blamed on one match
-    let Ok(plain_matches) = guarded(Aus(|| root.find_all(&cfg.plain.matcher).collect::<Vec<_>>())) else {
-      continue;
-    };
+    if !plain_cache.contains_key(&cfg.outer_id) {
+      let Ok(ms) = guarded(Aus(|| root.find_all(&cfg.plain.matcher).collect::<Vec<_>>())) else {
+        continue;
+      };
+      plain_cache.insert(cfg.outer_id, ms);
+    }
+    let plain_matches = plain_cache[&cfg.outer_id].clone();
     for pm in &plain_matches {
       st.p3_matches.fetch_add(1, Relaxed);
       let m = match guarded(Aus(|| cfg.cfg.matcher.match_node(pm.get_node().clone()))) {
@@ -1040,7 +1122,7 @@ fn part3_source(rep: &Reporter, st: &Stats, samples: &Samp, spec: &LangSpec, src
           let mut detail = json!(null);
           if !nodes.is_empty() {
             let (s, e) = (nodes[0].range().start, nodes[nodes.len() - 1].range().end);
-            if let Ok(es) = guarded(Aus(|| rewriter_edits(&nodes, &cfg.rws))) {
+            if let Ok(es) = guarded(Aus(|| rewriter_edits(&nodes, cfg, &mut rw_cache))) {
               class = escape_class(&es, s, e);
               detail = json!({"captured": [s, e], "rewriter_edits": eds_json(&es)});
             }
@@ -1077,7 +1159,7 @@ fn part3_source(rep: &Reporter, st: &Stats, samples: &Samp, spec: &LangSpec, src
       if end < start || end > src.len() {
         continue;
       }
-      let edits = match guarded(Aus(|| rewriter_edits(&nodes, &cfg.rws))) {
+      let edits = match guarded(Aus(|| rewriter_edits(&nodes, cfg, &mut rw_cache))) {
         Ok(e) => e,
         Err(msg) => {
           let mut c = case();
